@@ -161,3 +161,73 @@ func TestRegressLeaveDuringShrinkingReconciliation(t *testing.T) {
 		t.Fatalf("VERIF-INFRA: the shrinking heartbeat response was never observed")
 	}
 }
+
+// TestRegressPartitionsAddedWhileFirstMemberJoins replays "fixed: property=C07 ... kfake keeps
+// the newest topic metadata snapshot": a KIP-848 member joins at the very moment partitions
+// are added to its topic. The member's first heartbeat could carry the older partition count
+// and be processed after the change notification, after which nothing ever recomputed the
+// assignment: the added partitions stayed unowned although membership and subscriptions had
+// stopped changing. Schedule dependent (smoke test).
+func TestRegressPartitionsAddedWhileFirstMemberJoins(t *testing.T) {
+	n := 60
+	if ev.Thorough() {
+		n = 400
+	}
+	for i := 0; i < n; i++ {
+		var owned map[string]bool
+		bubble.Run(t, nil, func(e *bubble.Env) {
+			e.StartCluster(bubble.ClusterOpts{Brokers: 1, Topics: map[string]int32{"g0": 2},
+				Extra: []kfake.Opt{kfake.BrokerConfigs(map[string]string{"group.consumer.heartbeat.interval.ms": "100"})}})
+			var mu sync.Mutex
+			owned = map[string]bool{}
+			add := func(_ context.Context, _ *kgo.Client, ps map[string][]int32) {
+				mu.Lock()
+				defer mu.Unlock()
+				for t, parts := range ps {
+					for _, p := range parts {
+						owned[fmt.Sprintf("%s/%d", t, p)] = true
+					}
+				}
+			}
+			del := func(_ context.Context, _ *kgo.Client, ps map[string][]int32) {
+				mu.Lock()
+				defer mu.Unlock()
+				for t, parts := range ps {
+					for _, p := range parts {
+						delete(owned, fmt.Sprintf("%s/%d", t, p))
+					}
+				}
+			}
+			admin := e.NewClient()
+			next := context.WithValue(context.Background(), "opt_in_kafka_next_gen_balancer_beta", true) //nolint
+			m := e.NewClient(kgo.WithContext(next), kgo.ConsumerGroup("g7p"), kgo.ConsumeTopics("g0"), kgo.OnPartitionsAssigned(add), kgo.OnPartitionsRevoked(del), kgo.OnPartitionsLost(del))
+			for j := 0; j < (i%20)*3; j++ {
+				runtime.Gosched()
+			}
+			req := kmsg.NewPtrCreatePartitionsRequest()
+			rt := kmsg.NewCreatePartitionsRequestTopic()
+			rt.Topic, rt.Count = "g0", 4
+			req.Topics = append(req.Topics, rt)
+			req.TimeoutMillis = 5000
+			ctx, cancel := context.WithTimeout(context.Background(), time.Minute)
+			if _, err := req.RequestWith(ctx, admin); err != nil {
+				panic("VERIF-INFRA: CreatePartitions: " + err.Error())
+			}
+			cancel()
+			for dl := time.Now().Add(30 * time.Second); time.Now().Before(dl); {
+				pc, cancel := context.WithTimeout(context.Background(), 500*time.Millisecond)
+				m.PollFetches(pc)
+				cancel()
+			}
+			mu.Lock()
+			defer mu.Unlock()
+			owned = map[string]bool{"g0/0": owned["g0/0"], "g0/1": owned["g0/1"], "g0/2": owned["g0/2"], "g0/3": owned["g0/3"]}
+		})
+		ev.Case(fmt.Sprintf("regress-partitions-added-while-first-member-joins-%d-yields", (i%20)*3), true)
+		for tp, ok := range owned {
+			if !ok {
+				t.Fatalf("iteration %d: 30 virtual seconds after the only member joined and g0 grew to 4 partitions, %s has no owner (owned: %v)", i, tp, owned)
+			}
+		}
+	}
+}
